@@ -177,10 +177,16 @@ std::string doSteps(Case& c, long k, bool aggregate) {
 		if (!dok) { if (!nder) derAt = s; ++nder; }
 		if (!finite(p) || !std::isfinite(v)) ++nfin;
 		if (!(c.o->delta() > 0) || !std::isfinite(c.o->delta())) { if (!ndelta) deltaAt = s; ++ndelta; }
-		double moved = dist(p, pbefore);
-		if (moved > 0) ++nacc;
-		if (moved / dbefore > maxout) maxout = moved / dbefore;
-		if (!(moved <= dbefore * (1 + 1e-9))) { if (!nout) outAt = s; ++nout; }
+		if (dist(p, pbefore) > 0) ++nacc;
+		// the evaluated trial point (point + CG step, also of a rejected step) stays inside the trust region of the step: |step| <= radius,
+		// up to the rounding of the vector addition point + step (half an ulp of the coordinates) and 1e-9 relative for the CG arithmetic
+		if (c.f->nTrial && finite(c.f->trialPoint)) {
+			double moved = dist(c.f->trialPoint, pbefore), big = 0;
+			for (std::size_t i = 0; i != pbefore.size(); ++i) big = std::max(big, std::max(std::fabs(pbefore(i)), std::fabs(c.f->trialPoint(i))));
+			double slack = std::sqrt((double)pbefore.size()) * 2.220446049250313e-16 * big;
+			if ((moved - slack) / dbefore > maxout) maxout = (moved - slack) / dbefore;
+			if (!(moved <= dbefore * (1 + 1e-9) + slack)) { if (!nout) outAt = s; ++nout; }
+		}
 	}
 	std::string out = stateLine(c);
 	std::ostringstream s;
